@@ -930,7 +930,12 @@ func (w *World) rawData(key string, env bool, size, n int) []byte {
 		w.rawBuf = map[string][]byte{}
 	}
 	if env {
-		w.rawBuf[key] = validMessage(size)
+		if size > 8<<20 {
+			// an announced size far beyond what will ever be sent: only the bytes asked for
+			w.rawBuf[key] = nil
+		} else {
+			w.rawBuf[key] = validMessage(size)
+		}
 	}
 	buf := w.rawBuf[key]
 	out := make([]byte, n)
